@@ -92,15 +92,25 @@ def verify(src, pid, name):
     finally:
         sh("git -C /repo worktree remove --force %s" % wt)
 
-def run(sid, checks, tier="quick"):
+def run(sid, checks, tier="quick", scratch=False):
+    """scratch=False: the documented protocol (apply to /repo, run, undo). scratch=True: the same
+    patch applied to a throw-away worktree of /repo HEAD that the check is pointed at
+    (VERIF_REPO), so that /repo itself stays untouched while other checks are running on it."""
     d = os.path.join(VERIF, "seeded", sid)
     meta = json.load(open(os.path.join(d, "meta.json")))
     if not checks:
         checks = [meta["property"]]
-    st = sh("git -C /repo status --porcelain").stdout.strip()
-    if st:
-        raise SystemExit("/repo is not clean:\n" + st)
-    sh("git -C /repo apply %s" % os.path.join(d, "patch.diff"), check=True)
+    repo = "/repo"
+    if scratch:
+        repo = "/tmp/seedrepo_%s" % sid
+        sh("git -C /repo worktree remove --force %s" % repo)
+        sh("git -C /repo worktree add -q --detach %s HEAD" % repo, check=True)
+        ENV["VERIF_REPO"] = repo
+    else:
+        st = sh("git -C /repo status --porcelain").stdout.strip()
+        if st:
+            raise SystemExit("/repo is not clean:\n" + st)
+    sh("git -C %s apply %s" % (repo, os.path.join(d, "patch.diff")), check=True)
     try:
         for c in checks:
             t = time.time()
@@ -113,8 +123,12 @@ def run(sid, checks, tier="quick"):
                 print("    " + l[:300])
             meta["detected_by"]["%s/%s" % (c, tier)] = {"verdict": verdict, "detail": detail[:4]}
     finally:
-        sh("git -C /repo checkout -- .", check=True)
-        sh("git -C /repo clean -fdq", check=True)
+        if scratch:
+            sh("git -C /repo worktree remove --force %s" % repo)
+            sh("git -C /repo worktree prune")
+        else:
+            sh("git -C /repo checkout -- .", check=True)
+            sh("git -C /repo clean -fdq", check=True)
     json.dump(meta, open(os.path.join(d, "meta.json"), "w"), indent=1)
 
 if __name__ == "__main__":
@@ -125,4 +139,7 @@ if __name__ == "__main__":
         a = sys.argv[2:]
         if "--tier" in a:
             i = a.index("--tier"); tier = a[i + 1]; del a[i:i + 2]
-        run(a[0], a[1:], tier)
+        scratch = "--scratch" in a
+        if scratch:
+            a.remove("--scratch")
+        run(a[0], a[1:], tier, scratch)
